@@ -1739,7 +1739,7 @@ M.contract(P_ODI + ':_DescriptionExtractor.__init__', inline=NOT_IN_DOCUMENT_PAR
                     and off_of(source, orig) >= old[0] and unchanged_but_column(source, old[1])},
            raises_only=())
 
-M.contract(P_ODI + ':_DescriptionExtractor.apply',
+M.contract(P_ODI + ':_DescriptionExtractor.apply', event='extract-description',
            params=dict(self=DESCRIPTION_EXTRACTOR), ghosts=dict(orig=Str),
            requires=lambda self, orig: _extractor_ok(self.source, self.remaining_source, orig),
            old=lambda self, orig: off_of(self.source, orig),
@@ -1791,6 +1791,9 @@ M.contract(P_ODI_P + '.parse',
                    lambda result, source, orig, old, trace: _element_is_instruction_text(result, source, orig, old[1], trace),
                'the-instruction-is-what-the-instruction-parser-returned': lambda result, ghost:
                result.instruction_info.instruction is ghost['parsed-instruction'],
+               'the-description-is-what-the-description-extractor-returned': lambda result, trace:
+               [_same_opt(result.instruction_info.description, e[1]) for e in trace
+                if e[0] == 'extract-description:returned'] == [True],
            }, raises_only=())
 
 
